@@ -51,6 +51,19 @@ func mkCA(name string) *CA {
 	return ca
 }
 
+// ServerCertFor mints a server certificate for host under ca.
+func ServerCertFor(ca *CA, host string) tls.Certificate {
+	skey, _ := ecdsa.GenerateKey(elliptic.P256(), rand.Reader)
+	stmpl := &x509.Certificate{SerialNumber: big.NewInt(time.Now().UnixNano()), Subject: pkix.Name{CommonName: host}, DNSNames: []string{host},
+		NotBefore: time.Now().Add(-time.Hour), NotAfter: time.Now().Add(240 * time.Hour),
+		KeyUsage: x509.KeyUsageDigitalSignature, ExtKeyUsage: []x509.ExtKeyUsage{x509.ExtKeyUsageServerAuth}}
+	sder, err := x509.CreateCertificate(rand.Reader, stmpl, ca.caCert, &skey.PublicKey, ca.caKey)
+	if err != nil {
+		panic(err)
+	}
+	return tls.Certificate{Certificate: [][]byte{sder}, PrivateKey: skey}
+}
+
 // InitPKI creates three private CAs (once per process).
 func InitPKI() {
 	pkiOnce.Do(func() {
